@@ -11,7 +11,7 @@ import (
 func init() {
 	register(&propDef{
 		ID:          "C17",
-		Explanation: "Decides, for the language server's document copy (cmd/templ/lspcmd/proxy): R1 in DidChange the call that applies the content changes dominates parsing, generation, the source-map cache update and the forwarded DidChange, and the text parsed is the String() of the document that Apply returned; in DidOpen the document is stored before parsing; R2 in Document.Apply the range is normalised before any classification predicate or line index is evaluated, and the normaliser clamps a position past the last line to the END of the last line (the branch that clamps a line coordinate also sets that position's character); R3 the three edit predicates (insert / delete / overwrite), evaluated exhaustively over the truth assignments of their atoms {end line = start line, end column = start column, text empty}, are pairwise disjoint and cover every state except (empty range, empty text); R4 every satisfying assignment of the whole-document predicate constrains the end line AND the end column of the range (a range whose end line is unconstrained cannot be known to cover the document), besides requiring start 0:0; R5 the document store applies changes under its mutex. R6 a field of Document that memoises a value computed from the text (returned when non-nil, filled otherwise) is reset in every method that writes the fields it was computed from (none exists on the pinned tree; a positive control keeps the detector live). R7 the transport's async handler releases the next message only from inside the reply wrapper (messages are handled in arrival order, so edits are applied in the order sent). NOT decided: the splice arithmetic of Insert/Delete/Overwrite on concrete texts, UTF-16 column units.",
+		Explanation: "Decides, for the language server's document copy (cmd/templ/lspcmd/proxy): R1 in DidChange the call that applies the content changes dominates parsing, generation, the source-map cache update and the forwarded DidChange, and the text parsed is the String() of the document that Apply returned; in DidOpen the document is stored before parsing; R2 in Document.Apply the range is normalised before any classification predicate or line index is evaluated, and the normaliser clamps a position past the last line to the END of the last line (the branch that clamps a line coordinate also sets that position's character); R3 the three edit predicates (insert / delete / overwrite), evaluated exhaustively over the truth assignments of their atoms {end line = start line, end column = start column, text empty}, are pairwise disjoint and cover every state except (empty range, empty text); R4 every satisfying assignment of the whole-document predicate constrains the end line AND the end column of the range (a range whose end line is unconstrained cannot be known to cover the document), besides requiring start 0:0; R5 the document store applies changes under its mutex. R6 a field of Document that memoises a value computed from the text (returned when non-nil, filled otherwise) is reset in every method that writes the fields it was computed from (none exists on the pinned tree; a positive control keeps the detector live). R7 the transport's async handler releases the next message only from inside the reply wrapper (messages are handled in arrival order, so edits are applied in the order sent). R1 also: DidOpen / DidChange have no `return nil` that the update of the cached document does not dominate. R8 the range normaliser is called only inside Document.Apply (each change of a batch is clamped against the document as the previous change left it). NOT decided: the splice arithmetic of Insert/Delete/Overwrite on concrete texts, UTF-16 column units.",
 		Assumptions: []string{"atoms of the predicates are independent comparisons (truth table over uninterpreted atoms)"},
 		Trusted:     []string{"go/types", "x/tools go/packages, go/cfg"},
 		Run:         runC17,
@@ -76,6 +76,25 @@ func runC17(c *Ctx) {
 		}
 		c.check(okDom, "C17.R1", key+"|apply-before-use", c.pos(apply.Pos()), fmt.Sprintf("document update dominates %d uses (parse, generate, cache, forward)", len(uses)),
 			name+": "+bad+" is not dominated by the update of the cached document: Go code would be regenerated from the text before the edit")
+		// no successful way out for a templ file before the cached document was updated: every `return nil` comes after
+		// the update (the forwarding return for other files returns the target's result; error returns are not success)
+		early := ""
+		directNodes(fd.Body, func(n ast.Node) bool {
+			ret, ok := n.(*ast.ReturnStmt)
+			if !ok || len(ret.Results) == 0 {
+				return true
+			}
+			last := ast.Unparen(ret.Results[len(ret.Results)-1])
+			if id, ok := last.(*ast.Ident); !ok || id.Name != "nil" {
+				return true
+			}
+			if !fc.dominates(apply, ret) {
+				early = c.pos(ret.Pos())
+			}
+			return true
+		})
+		c.check(early == "", "C17.R1", key+"|no-success-before-update", c.pos(apply.Pos()), "every `return nil` is dominated by the update of the cached document",
+			name+" returns success at "+early+" without having updated the cached document: the server keeps an older text than the editor shows, and later range edits are applied to the wrong base")
 		if name == "DidChange" && parse != nil {
 			// parsed text = d.String() with d the result of Apply
 			var dObj types.Object
@@ -281,6 +300,55 @@ func runC17(c *Ctx) {
 	}
 	if totalClamps < 2 {
 		c.viol("C17.R2", modPath+"/cmd/templ/lspcmd/proxy|line-clamps", "", fmt.Sprintf("expected the start and the end position to be clamped to the last line, found %d line clamps", totalClamps))
+	}
+
+	// R8: each change of a batch is interpreted against the document as the previous change left it: the range
+	// normaliser (clamping against the CURRENT lines) runs only inside Document.Apply, right before that change is
+	// applied — not ahead of time for the whole batch
+	if apFd != nil {
+		apObj := info.Defs[apFd.Name]
+		nsite := 0
+		for _, fd := range allFuncDecls(p) {
+			if fd.Body == nil || fd == apFd {
+				continue
+			}
+			if fobj, ok := info.Defs[fd.Name].(*types.Func); ok && isRangeMutator(c, p, fobj) {
+				// the normaliser itself and its helpers: methods of Document, or plain functions
+				sig := fobj.Type().(*types.Signature)
+				if sig.Recv() == nil || strings.HasSuffix(strings.TrimPrefix(sig.Recv().Type().String(), "*"), "proxy.Document") {
+					continue
+				}
+			}
+			ast.Inspect(fd.Body, func(n ast.Node) bool {
+				call, ok := n.(*ast.CallExpr)
+				if !ok {
+					return true
+				}
+				fn := calleeOf(info, call)
+				if fn == nil || fn.Pkg() != p.Types || types.Object(fn) == apObj || !isRangeMutator(c, p, fn) {
+					return true
+				}
+				// the normaliser is a method of Document (it clamps against the document's lines)
+				if sig := fn.Type().(*types.Signature); sig.Recv() == nil || !strings.HasSuffix(strings.TrimPrefix(sig.Recv().Type().String(), "*"), "proxy.Document") {
+					return true
+				}
+				// only calls that pass a range
+				takesRange := false
+				for _, a := range call.Args {
+					if t := info.TypeOf(a); t != nil && strings.HasSuffix(t.String(), "protocol.Range") {
+						takesRange = true
+					}
+				}
+				if !takesRange {
+					return true
+				}
+				nsite++
+				c.viol("C17.R8", fmt.Sprintf("%s|normalises-outside-apply#%d", funcKey(p, fd), nsite), c.pos(call.Pos()),
+					fmt.Sprintf("%s clamps a change's range with %s outside Document.Apply: in a batch of changes the later ranges are then clamped against the document as it was BEFORE the earlier changes of the same batch, so an edit that addresses text created by an earlier change of that batch lands in the wrong place", fd.Name.Name, fn.Name()))
+				return true
+			})
+		}
+		c.ok("C17.R8", p.PkgPath+"|range-normalised-only-at-application", c.pos(apFd.Pos()), fmt.Sprintf("%d calls of the range normaliser outside Document.Apply", nsite))
 	}
 
 	// R3 ------------------------------------------------------------
